@@ -288,6 +288,22 @@ def run(ctx):
                 except Exception:  # noqa
                     pass
                 ctx.violation(mech, f"{cls}: re-serialisation differs - {d}", case)
+        if order != "threads" and rp.get("eq") != rf.get("eq") and "err" not in (rp.get("eq") or {}) and "err" not in (rf.get("eq") or {}):
+            mech = "equality_differs"
+            try:
+                mf = modelgen.discover_models()[c["cls"]].model_fields
+                keys = set(c["wire"]) | set(rp.get("eq_prev_keys") or [])
+                if any(f.alias and f.alias != a and a in keys for a, f in mf.items()):
+                    # one of the two objects carries an unknown member spelled like the Python name of an aliased field:
+                    # the recorded defect (the member is renamed / lost), seen through ==
+                    mech = "python_named_member_next_to_aliased_member_differs"
+            except Exception:  # noqa
+                pass
+            ctx.violation(mech, f"{cls}: comparing validated objects gives pydantic={rp.get('eq')} fallback={rf.get('eq')} "
+                          f"(same_wire_twice: this wire object validated twice; previous_of_class: against the previously "
+                          f"validated object of the class)", case)
+        elif order != "threads" and rp.get("eq"):
+            ctx.count("equality_observations")
         ctx.record(case, shape=None, nontrivial=bool(c["wire"]), cls="model:" + cls,
                    sample={"cls": c["cls"], "wire": c["wire"], "tree": rp.get("tree")})
     ctx.require_reached("cases_compared")
